@@ -191,15 +191,18 @@ enum Client {
     Gone,
 }
 
+/// client kinds: r / o = rustls / OpenSSL client (TLS 1.3), R / O = the same restricted to TLS 1.2, n = no TLS client
 fn new_client(kind: char, io: tokio::io::DuplexStream, pki: &Pki) -> Client {
     match kind {
-        'r' => {
-            let c = tokio_rustls::TlsConnector::from(rustls_client_config(pki));
+        'r' | 'R' => {
+            let cfg = if kind == 'r' { rustls_client_config(pki) } else { rustls_client_config_tls12(pki) };
+            let c = tokio_rustls::TlsConnector::from(cfg);
             let name = rustls_pki_types::ServerName::try_from("a.test").unwrap();
             Client::RustlsHs(Box::pin(c.connect(name, Mem::new(io))))
         }
-        'o' => {
-            let ssl = openssl_connector(pki).configure().unwrap().into_ssl("a.test").unwrap();
+        'o' | 'O' => {
+            let max = if kind == 'o' { None } else { Some(openssl::ssl::SslVersion::TLS1_2) };
+            let ssl = openssl_connector_max(pki, max).configure().unwrap().into_ssl("a.test").unwrap();
             Client::OsslHs(tokio_openssl::SslStream::new(ssl, Mem::new(io)).unwrap())
         }
         _ => Client::Raw(Some(io)),
